@@ -73,6 +73,8 @@ def register(reg):
   c.trusted("'%s.%s' % (module, class name) of the opaque class: a fixed string per class")
 
   register_teardown(reg)
+  reg.replayers['PlugManager.tear_down_plugs'] = replay_plugs
+  reg.replayers['PlugManager.initialize_plugs'] = replay_plugs
   register_init(reg)
   register_executor_side(reg)
 
@@ -179,3 +181,65 @@ def register_executor_side(reg):
              'dict(self.test_state.plug_manager._plugs_by_name)', 'dict(self.test_state.plug_manager._plug_descriptors)',
              'dict(self.test_state.plug_manager._plug_types)', 'opaque:plug_type.logger', 'opaque:plug.logger',
              'threading.Thread.alive', '_PlugTearDownThread._plug', 'event.flag')
+
+
+def replay_plugs(model, ob):
+  """PlugManager on concrete plug classes: only requested types are constructed, every instance is torn down exactly once
+  (also when tearDown lives on the instance), a hung tearDown is abandoned after the configured timeout."""
+  import logging, threading, time
+  logging.disable(logging.CRITICAL)
+  threading.excepthook = lambda args: None         # a killed tearDown thread ends with ThreadTerminationError: not news
+  from openhtf import plugs
+  from openhtf.core import base_plugs
+  from openhtf.util import configuration
+  out = {'scenarios': []}
+  bad = False
+  made, torn = [], []
+
+  class A(base_plugs.BasePlug):
+    def __init__(self):
+      made.append('A')
+
+    def tearDown(self):
+      torn.append('A')
+
+  class B(base_plugs.BasePlug):
+    def __init__(self):
+      made.append('B')
+      self.tearDown = lambda: torn.append('B')        # effective tearDown on the instance
+
+  m = plugs.PlugManager({A, B})
+  m.initialize_plugs(plug_types=[])
+  if made:
+    bad = True
+    out['scenarios'].append({'initialize_plugs(plug_types=[])': 'constructed %r although nothing was requested' % made})
+  m.initialize_plugs()
+  m.initialize_plugs()
+  if sorted(made) != ['A', 'B']:
+    bad = True
+    out['scenarios'].append({'initialize_plugs() twice': 'constructed %r' % made})
+  m.tear_down_plugs()
+  if sorted(torn) != ['A', 'B']:
+    bad = True
+    out['scenarios'].append({'tear_down_plugs()': 'tearDown calls %r for instances %r' % (sorted(torn), sorted(made))})
+  gate = threading.Event()
+
+  class Hung(base_plugs.BasePlug):
+    def tearDown(self):
+      gate.wait(4)
+  old = configuration.CONF._loaded_values.get('plug_teardown_timeout_s')
+  configuration.CONF.load(plug_teardown_timeout_s=0.2)
+  try:
+    m2 = plugs.PlugManager({Hung})
+    m2.initialize_plugs()
+    t0 = time.time()
+    m2.tear_down_plugs()
+    took = time.time() - t0
+  finally:
+    gate.set()
+    configuration.CONF.load(plug_teardown_timeout_s=old)
+  if took > 2.0:
+    bad = True
+    out['scenarios'].append({'hung tearDown with plug_teardown_timeout_s=0.2': 'tear_down_plugs() returned after %.1f s' % took})
+  out['reproduced'] = bad
+  return out
